@@ -33,6 +33,11 @@ func c10Attrs() map[string]*schema.AttributeSchema {
 	}
 	m["ref"] = &schema.AttributeSchema{Constraint: schema.Reference{OfType: cty.String}, IsOptional: true}
 	m["oneof"] = &schema.AttributeSchema{Constraint: schema.OneOf{schema.Reference{OfScopeId: "sa"}, schema.LiteralType{Type: cty.String}, schema.AnyExpression{OfType: cty.String}}, IsOptional: true}
+	// the pair terraform-schema writes for "a list literal or anything of list type": the first member leaves
+	// literals to the second for completion, origins are collected whoever takes them
+	m["oneof_skip"] = &schema.AttributeSchema{Constraint: schema.OneOf{
+		schema.AnyExpression{OfType: cty.List(cty.String), SkipLiteralComplexTypes: true},
+		schema.List{Elem: schema.AnyExpression{OfType: cty.String}}}, IsOptional: true}
 	m["list_any"] = &schema.AttributeSchema{Constraint: schema.List{Elem: schema.AnyExpression{OfType: cty.String}}, IsOptional: true}
 	m["set_any"] = &schema.AttributeSchema{Constraint: schema.Set{Elem: schema.AnyExpression{OfType: cty.String}}, IsOptional: true}
 	m["map_any"] = &schema.AttributeSchema{Constraint: schema.Map{Elem: schema.AnyExpression{OfType: cty.String}, AllowInterpolatedKeys: true}, IsOptional: true}
@@ -131,6 +136,9 @@ func c10Cases(tier string) []c10Case {
 			for _, e := range exprs {
 				add(cx, "any_"+tn, e, true)
 				add(cx, "dyn_"+tn, e, true)
+				if tn == "list" {
+					add(cx, "oneof_skip", e, true)
+				}
 				if wide {
 					add(cx, "lit_"+tn, e, false)
 				}
